@@ -600,6 +600,12 @@ let rec forallb f = function
 | [] -> true
 | a :: l0 -> (&&) (f a) (forallb f l0)
 
+(** val filter : ('a1 -> bool) -> 'a1 list -> 'a1 list **)
+
+let rec filter f = function
+| [] -> []
+| x :: l0 -> if f x then x :: (filter f l0) else filter f l0
+
 (** val repeat : 'a1 -> nat -> 'a1 list **)
 
 let rec repeat x = function
@@ -877,6 +883,15 @@ let rec substring n0 m s =
   | S n' -> (match s with
              | [] -> s
              | _::s' -> substring n' m s')
+
+(** val concat : char list -> char list list -> char list **)
+
+let rec concat sep = function
+| [] -> []
+| x :: xs ->
+  (match xs with
+   | [] -> x
+   | _ :: _ -> append x (append sep (concat sep xs)))
 
 type q = { qnum : z; qden : positive }
 
@@ -7894,21 +7909,28 @@ let run_run = function
 type lvl =
 | LClean
 | LSet
-| LAny
+| LGuard of char list list
 
-(** val lvl_eqb : lvl -> lvl -> bool **)
+(** val lAny : lvl **)
 
-let lvl_eqb a b =
-  match a with
-  | LClean -> (match b with
-               | LClean -> true
-               | _ -> false)
-  | LSet -> (match b with
-             | LSet -> true
-             | _ -> false)
-  | LAny -> (match b with
-             | LAny -> true
-             | _ -> false)
+let lAny =
+  LGuard []
+
+(** val mem_s : char list -> char list list -> bool **)
+
+let mem_s x l =
+  existsb (eqb0 x) l
+
+(** val incl_b : char list list -> char list list -> bool **)
+
+let incl_b g f =
+  forallb (fun x -> mem_s x f) g
+
+(** val is_clean : lvl -> bool **)
+
+let is_clean = function
+| LClean -> true
+| _ -> false
 
 (** val lle : lvl -> lvl -> bool **)
 
@@ -7918,27 +7940,68 @@ let lle a b =
   | LSet -> (match b with
              | LClean -> false
              | _ -> true)
-  | LAny -> (match b with
-             | LAny -> true
-             | _ -> false)
+  | LGuard f -> (match b with
+                 | LGuard g -> incl_b g f
+                 | _ -> false)
 
 (** val lmax : lvl -> lvl -> lvl **)
 
 let lmax a b =
-  if lle a b then b else a
+  match a with
+  | LClean -> b
+  | LSet -> (match b with
+             | LClean -> a
+             | _ -> b)
+  | LGuard f ->
+    (match b with
+     | LGuard g -> LGuard (filter (fun x -> mem_s x g) f)
+     | _ -> a)
+
+(** val lforget_all : char list list -> lvl -> lvl **)
+
+let lforget_all xs l = match l with
+| LGuard f -> LGuard (filter (fun y -> negb (mem_s y xs)) f)
+| _ -> l
+
+(** val lguard : char list -> lvl -> lvl **)
+
+let lguard x l = match l with
+| LGuard f -> LGuard (x :: f)
+| _ -> l
+
+(** val lfalse : char list -> lvl -> lvl **)
+
+let lfalse x l = match l with
+| LGuard f -> if mem_s x f then LSet else l
+| _ -> l
 
 type astate = (char list * lvl) list
 
 (** val aget : char list -> astate -> lvl **)
 
 let rec aget x = function
-| [] -> LAny
+| [] -> lAny
 | p :: r -> let (y, l) = p in if eqb0 x y then l else aget x r
 
 (** val aset : char list -> lvl -> astate -> astate **)
 
 let aset x l a =
   map (fun yl -> if eqb0 x (fst yl) then ((fst yl), l) else yl) a
+
+(** val amap : (lvl -> lvl) -> astate -> astate **)
+
+let amap g a =
+  map (fun yl -> ((fst yl), (g (snd yl)))) a
+
+(** val aforget_all : char list list -> astate -> astate **)
+
+let aforget_all xs =
+  amap (lforget_all xs)
+
+(** val aforget : char list -> astate -> astate **)
+
+let aforget x =
+  aforget_all (x :: [])
 
 (** val ajoin : astate -> astate -> astate **)
 
@@ -8000,7 +8063,46 @@ let fill_ok ns brs sg =
 (** val awrite : char list list -> char list -> astate -> astate **)
 
 let awrite ns x sg =
-  if is_mem ns x then aset x LSet sg else sg
+  if is_mem ns x then aset x LSet sg else aforget x sg
+
+(** val abot : char list list -> astate **)
+
+let abot ns =
+  map (fun x -> (x, LClean)) ns
+
+(** val is_true_flag : decl -> bool **)
+
+let is_true_flag d =
+  (&&) (eqb0 d.d_type ('b'::('o'::('o'::('l'::[])))))
+    (match d.d_init with
+     | Some c -> (match c with
+                  | CBool b -> b
+                  | _ -> false)
+     | None -> false)
+
+(** val ai_decls :
+    char list list -> decl list -> char list list -> astate -> astate option **)
+
+let rec ai_decls ns ds seen sg =
+  match ds with
+  | [] -> Some sg
+  | d :: r ->
+    if decl_ok ns d
+    then let sg1 = aforget d.d_name sg in
+         let sg2 =
+           if (&&) (is_true_flag d) (negb (mem_s d.d_name seen))
+           then amap (lguard d.d_name) sg1
+           else sg1
+         in
+         ai_decls ns r (d.d_name :: seen) sg2
+    else None
+
+(** val cond_false : cexp -> astate -> astate **)
+
+let cond_false c sg =
+  match c with
+  | CVar f -> amap (lfalse f) sg
+  | _ -> sg
 
 (** val ai_stmt :
     char list list -> branch list -> stmt -> astate -> astate option **)
@@ -8013,17 +8115,19 @@ let ai_stmt ns brs =
       if exp_ok ns e
       then if is_mem ns x
            then if lle (aget x sg) LSet then Some (aset x LSet sg) else None
-           else Some sg
+           else Some (aforget x sg)
       else None
     | SClear x ->
       if is_mem ns x
       then if lle (aget x sg) LSet then Some (aset x LClean sg) else None
-      else Some sg
+      else Some (aforget x sg)
     | SFill _ -> if fill_ok ns brs sg then Some sg else None
-    | SThrow _ -> Some sg
+    | SThrow _ -> Some (abot ns)
     | SFetch (_, target, _, _, _) -> Some (awrite ns target sg)
     | SIota (v, b) ->
-      if (&&) (negb (is_mem ns v)) (negb (is_mem ns b)) then Some sg else None
+      if (&&) (negb (is_mem ns v)) (negb (is_mem ns b))
+      then Some (aforget v sg)
+      else None
     | SUser (_, ids, target) ->
       if (&&) (ids_ok ns ids)
            (match target with
@@ -8034,23 +8138,29 @@ let ai_stmt ns brs =
     | SLine (_, ids) -> if ids_ok ns ids then Some sg else None
     | SFor (x, e, b) ->
       if (&&) (negb (is_mem ns x)) (exp_ok ns e)
-      then ai_loop (ai_block0 b) loop_fuel sg
+      then ai_loop (ai_block0 b (x :: [])) loop_fuel sg
       else None
     | SIf (c, b, els) ->
       if exp_ok ns c
-      then (match ai_block0 b sg with
+      then (match ai_block0 b [] sg with
             | Some s1 ->
               (match match els with
-                     | Some b2 -> ai_block0 b2 sg
-                     | None -> Some sg with
+                     | Some b2 -> ai_block0 b2 [] (cond_false c sg)
+                     | None -> Some (cond_false c sg) with
                | Some s2 -> Some (ajoin s1 s2)
                | None -> None)
             | None -> None)
       else None
-    | SBlk b -> ai_block0 b sg
-  and ai_block0 b sg =
+    | SBlk b -> ai_block0 b [] sg
+  and ai_block0 b pre sg =
     let Blk (ds, body) = b in
-    if forallb (decl_ok ns) ds then ai_stmts body sg else None
+    (match ai_decls ns ds pre (aforget_all pre sg) with
+     | Some sg1 ->
+       (match ai_stmts body sg1 with
+        | Some sg2 ->
+          Some (aforget_all (app pre (map (fun d -> d.d_name) ds)) sg2)
+        | None -> None)
+     | None -> None)
   and ai_stmts l sg =
     match l with
     | SNil -> Some sg
@@ -8061,7 +8171,8 @@ let ai_stmt ns brs =
   in ai_stmt0
 
 (** val ai_block :
-    char list list -> branch list -> block -> astate -> astate option **)
+    char list list -> branch list -> block -> char list list -> astate ->
+    astate option **)
 
 let ai_block ns brs =
   let rec ai_stmt0 s sg =
@@ -8071,17 +8182,19 @@ let ai_block ns brs =
       if exp_ok ns e
       then if is_mem ns x
            then if lle (aget x sg) LSet then Some (aset x LSet sg) else None
-           else Some sg
+           else Some (aforget x sg)
       else None
     | SClear x ->
       if is_mem ns x
       then if lle (aget x sg) LSet then Some (aset x LClean sg) else None
-      else Some sg
+      else Some (aforget x sg)
     | SFill _ -> if fill_ok ns brs sg then Some sg else None
-    | SThrow _ -> Some sg
+    | SThrow _ -> Some (abot ns)
     | SFetch (_, target, _, _, _) -> Some (awrite ns target sg)
     | SIota (v, b) ->
-      if (&&) (negb (is_mem ns v)) (negb (is_mem ns b)) then Some sg else None
+      if (&&) (negb (is_mem ns v)) (negb (is_mem ns b))
+      then Some (aforget v sg)
+      else None
     | SUser (_, ids, target) ->
       if (&&) (ids_ok ns ids)
            (match target with
@@ -8092,23 +8205,29 @@ let ai_block ns brs =
     | SLine (_, ids) -> if ids_ok ns ids then Some sg else None
     | SFor (x, e, b) ->
       if (&&) (negb (is_mem ns x)) (exp_ok ns e)
-      then ai_loop (ai_block0 b) loop_fuel sg
+      then ai_loop (ai_block0 b (x :: [])) loop_fuel sg
       else None
     | SIf (c, b, els) ->
       if exp_ok ns c
-      then (match ai_block0 b sg with
+      then (match ai_block0 b [] sg with
             | Some s1 ->
               (match match els with
-                     | Some b2 -> ai_block0 b2 sg
-                     | None -> Some sg with
+                     | Some b2 -> ai_block0 b2 [] (cond_false c sg)
+                     | None -> Some (cond_false c sg) with
                | Some s2 -> Some (ajoin s1 s2)
                | None -> None)
             | None -> None)
       else None
-    | SBlk b -> ai_block0 b sg
-  and ai_block0 b sg =
+    | SBlk b -> ai_block0 b [] sg
+  and ai_block0 b pre sg =
     let Blk (ds, body) = b in
-    if forallb (decl_ok ns) ds then ai_stmts body sg else None
+    (match ai_decls ns ds pre (aforget_all pre sg) with
+     | Some sg1 ->
+       (match ai_stmts body sg1 with
+        | Some sg2 ->
+          Some (aforget_all (app pre (map (fun d -> d.d_name) ds)) sg2)
+        | None -> None)
+     | None -> None)
   and ai_stmts l sg =
     match l with
     | SNil -> Some sg
@@ -8133,20 +8252,19 @@ let member_names p =
 
 let initial_astate p =
   map (fun m -> (m.m_name,
-    (if is_vector_type m.m_type then LClean else LAny))) p.p_members
+    (if is_vector_type m.m_type then LClean else lAny))) p.p_members
 
 (** val final_ok : program -> astate -> bool **)
 
 let final_ok p sg =
   forallb (fun m ->
-    if is_vector_type m.m_type
-    then lvl_eqb (aget m.m_name sg) LClean
-    else true) p.p_members
+    if is_vector_type m.m_type then is_clean (aget m.m_name sg) else true)
+    p.p_members
 
 (** val event_local_state : program -> astate option **)
 
 let event_local_state p =
-  ai_block (member_names p) p.p_branches p.p_body (initial_astate p)
+  ai_block (member_names p) p.p_branches p.p_body [] (initial_astate p)
 
 (** val event_local : program -> bool **)
 
@@ -8161,7 +8279,13 @@ let event_local p =
 let lvl_name = function
 | LClean -> 'c'::('l'::('e'::('a'::('n'::[]))))
 | LSet -> 's'::('e'::('t'::[]))
-| LAny -> 'a'::('n'::('y'::[]))
+| LGuard f ->
+  (match f with
+   | [] -> 'a'::('n'::('y'::[]))
+   | _ :: _ ->
+     append
+       ('s'::('e'::('t'::('-'::('i'::('f'::('-'::('f'::('a'::('l'::('s'::('e'::(':'::[])))))))))))))
+       (concat (','::[]) f))
 
 (** val s_astate : astate -> sexp **)
 
@@ -8171,8 +8295,8 @@ let s_astate sg =
       (lvl_name (snd yl))) :: []))) sg)
 
 (** val dg_block :
-    char list list -> branch list -> block -> astate -> (char list * astate)
-    option **)
+    char list list -> branch list -> block -> char list list -> astate ->
+    (char list * astate) option **)
 
 let dg_block ns brs =
   let rec dg_stmt s sg =
@@ -8208,15 +8332,15 @@ let dg_block ns brs =
              sg)
     | SFor (x, e, b) ->
       if (&&) (negb (is_mem ns x)) (exp_ok ns e)
-      then (match dg_block0 b sg with
+      then (match dg_block0 b (x :: []) sg with
             | Some d -> Some d
             | None ->
-              (match ai_block ns brs b sg with
+              (match ai_block ns brs b (x :: []) sg with
                | Some sg' ->
-                 (match dg_block0 b (ajoin sg sg') with
+                 (match dg_block0 b (x :: []) (ajoin sg sg') with
                   | Some d -> Some d
                   | None ->
-                    (match ai_loop (ai_block ns brs b) loop_fuel sg with
+                    (match ai_loop (ai_block ns brs b (x :: [])) loop_fuel sg with
                      | Some _ -> None
                      | None ->
                        Some
@@ -8230,16 +8354,16 @@ let dg_block ns brs =
                 x), sg)
     | SIf (c, b, els) ->
       if exp_ok ns c
-      then (match dg_block0 b sg with
+      then (match dg_block0 b [] sg with
             | Some d -> Some d
             | None ->
               (match els with
-               | Some b2 -> dg_block0 b2 sg
+               | Some b2 -> dg_block0 b2 [] (cond_false c sg)
                | None -> None))
       else Some
              (('c'::('o'::('n'::('d'::('i'::('t'::('i'::('o'::('n'::(' '::('r'::('e'::('a'::('d'::('s'::(' '::('a'::(' '::('m'::('e'::('m'::('b'::('e'::('r'::[])))))))))))))))))))))))),
              sg)
-    | SBlk b -> dg_block0 b sg
+    | SBlk b -> dg_block0 b [] sg
     | _ ->
       (match ai_stmt ns brs s sg with
        | Some _ -> None
@@ -8247,13 +8371,14 @@ let dg_block ns brs =
          Some
            (('o'::('p'::('a'::('q'::('u'::('e'::(' '::('l'::('i'::('n'::('e'::(' '::('o'::('r'::(' '::('i'::('o'::('t'::('a'::(' '::('m'::('e'::('n'::('t'::('i'::('o'::('n'::('s'::(' '::('a'::(' '::('m'::('e'::('m'::('b'::('e'::('r'::[]))))))))))))))))))))))))))))))))))))),
            sg))
-  and dg_block0 b sg =
+  and dg_block0 b pre sg =
     let Blk (ds, body) = b in
-    if forallb (decl_ok ns) ds
-    then dg_stmts body sg
-    else Some
-           (('d'::('e'::('c'::('l'::('a'::('r'::('a'::('t'::('i'::('o'::('n'::(' '::('s'::('h'::('a'::('d'::('o'::('w'::('s'::(' '::('o'::('r'::(' '::('r'::('e'::('a'::('d'::('s'::(' '::('a'::(' '::('m'::('e'::('m'::('b'::('e'::('r'::[]))))))))))))))))))))))))))))))))))))),
-           sg)
+    (match ai_decls ns ds pre (aforget_all pre sg) with
+     | Some sg1 -> dg_stmts body sg1
+     | None ->
+       Some
+         (('d'::('e'::('c'::('l'::('a'::('r'::('a'::('t'::('i'::('o'::('n'::(' '::('s'::('h'::('a'::('d'::('o'::('w'::('s'::(' '::('o'::('r'::(' '::('r'::('e'::('a'::('d'::('s'::(' '::('a'::(' '::('m'::('e'::('m'::('b'::('e'::('r'::[]))))))))))))))))))))))))))))))))))))),
+         sg))
   and dg_stmts l sg =
     match l with
     | SNil -> None
@@ -8281,7 +8406,7 @@ let run_event_local s =
          then s_tag ('o'::('k'::[])) ((s_bool false) :: ((SAtom
                 ('d'::('u'::('p'::('l'::('i'::('c'::('a'::('t'::('e'::(' '::('m'::('e'::('m'::('b'::('e'::('r'::(' '::('n'::('a'::('m'::('e'::('s'::[]))))))))))))))))))))))) :: ((SList
                 []) :: [])))
-         else (match dg_block ns p.p_branches p.p_body (initial_astate p) with
+         else (match dg_block ns p.p_branches p.p_body [] (initial_astate p) with
                | Some p0 ->
                  let (why, sg) = p0 in
                  s_tag ('o'::('k'::[])) ((s_bool false) :: ((SAtom
